@@ -187,7 +187,7 @@ def run(ctx):
     ctx.floor('R19.2', 'paths reaching copy_nonoverlapping', n_copy, 1)
 
     # the byte -> pixel closure: from_ne_bytes([p[0], p[1], p[2], p[3]])
-    clos = [k for k in P.bodies if k.startswith(PAINT + '::{closure')]
+    clos = [P.key_of(cb_) for cb_ in P.closures_of(ctx.body(PAINT).path)]       # (incl. closures of helpers inlined into the painter)
     n_conv = 0
     for k in clos:
         cb = P.bodies[k]
@@ -279,7 +279,7 @@ def local_discharge(ctx, P, b, s, wid):
         if n:
             s.verdict, s.rule, s.detail = 'discharged', 'D-ext', 'chunk size is the non-zero constant %d' % n
         return
-    if s.kind == 'bounds' and P.key_of(body).startswith(PAINT + '::{closure'):
+    if s.kind == 'bounds' and body.kind == 'Closure' and b in P.creators_of(body):
         # the closure is mapped over chunks_exact(N): its argument is a slice of exactly N elements
         n = None
         for c in b.calls:
